@@ -232,6 +232,25 @@ fn host_function_phase(threads: usize, rounds: usize) {
                 bad = verdict;
             }
         }
+        // a list owned by one inner scope alone (no other handle anywhere): concatenating onto it
+        // leaves the scope's variable as it was, however often the program runs
+        {
+            let mut scope = root.new_inner_scope();
+            scope.add_variable_from_value("tags", Value::List(Arc::new(vec![Value::Int(1), Value::Int(2)])));
+            scope.add_variable_from_value("word", Value::String(Arc::new("ab".to_string())));
+            for src in ["tags + [3]", "tags + tags", "word + 'c'", "[tags + [4], tags]", "tags.map(t, tags + [t])"] {
+                let p = Program::compile(src).unwrap();
+                let first = result_to_sx(&p.execute(&scope)).to_text();
+                for i in 0..3 {
+                    let again = result_to_sx(&p.execute(&scope)).to_text();
+                    let len = match scope.get_variable("tags") { Ok(Value::List(l)) => l.len(), _ => usize::MAX };
+                    let wlen = match scope.get_variable("word") { Ok(Value::String(w)) => w.len(), _ => usize::MAX };
+                    if again != first || len != 2 || wlen != 2 {
+                        bad = Some(format!("`{src}` against a scope that is the only owner of `tags` and `word`: execution {} yields {again} (the first {first}); afterwards tags has {len} elements and word {wlen} bytes", i + 2));
+                    }
+                }
+            }
+        }
         let bomb = Program::compile("boom(13)").unwrap();
         let bad = Mutex::new(bad);
         let (root, table, bomb) = (&root, &table, &bomb);
